@@ -93,6 +93,7 @@ pub fn dispatch(which: &str, v: &Value, case: &Value) -> Value {
         "c12_scheme" => c12_scheme(v),
         "c12_types" => c12_types(v),
         "c12_presplit" => c12_presplit(v),
+        "c12_presplit_long" => c12_presplit_long(v),
         "c05_select" => c05_select(v),
         "c12_srchash" => c12_srchash(v),
         "c16_labels" => c16_labels(v, false),
@@ -517,17 +518,41 @@ fn c05_fuse(v: &Value) -> Value {
     }
     let rt = if b(&v["rt_script"]) { RequestType::Script } else { RequestType::Document };
     let req = mk_request(&url, "", rt, false, true, b(&v["tp"]), None);
-    let run = |opt: bool| {
-        let mut bl = blocker_of(vec![f1.clone(), f2.clone()], opt);
-        if b(&v["tag_on"]) {
-            bl.use_tags(&["a"]);
+    // Blocker-level observation: category-routing bits (generichide, badfilter, ...) would send the two rules to
+    // lists a network query never shows, and an exception only shows next to a matching blocking rule. The
+    // fusion step does not depend on those bits, so the replay runs the counterexample's mask first and then the
+    // same rules with the routing bits cleared, each time next to a catch-all blocking rule.
+    let routing = NetworkFilterMask::GENERIC_HIDE | NetworkFilterMask::BAD_FILTER | NetworkFilterMask::ALSO_BLOCK_REDIRECT | NetworkFilterMask::UNMATCHED
+        | NetworkFilterMask::IS_REMOVEPARAM | NetworkFilterMask::IS_REDIRECT | NetworkFilterMask::IS_CSP;
+    let mut outcomes = vec![];
+    let mut reproduced = false;
+    for clear in [false, true] {
+        let adj = |f: &NetworkFilter| {
+            let mut g = f.clone();
+            if clear {
+                g.mask &= !routing;
+            }
+            g
+        };
+        let (g1, g2) = (adj(&f1), adj(&f2));
+        let mut catch_all = mk_filter((NetworkFilterMask::DEFAULT_OPTIONS | NetworkFilterMask::FROM_DOCUMENT).bits(), FilterPart::Empty, None, None);
+        catch_all.id = 424242;
+        let run = |opt: bool| {
+            let mut bl = blocker_of(vec![g1.clone(), g2.clone(), catch_all.clone()], opt);
+            if b(&v["tag_on"]) {
+                bl.use_tags(&["a"]);
+            }
+            let r = bl.check(&req, &ResourceStorage::default());
+            let csp = bl.get_csp_directives(&req);
+            (r.matched, r.important, r.exception.is_some(), r.redirect, r.rewritten_url, csp)
+        };
+        let (a, o) = (run(false), run(true));
+        if a != o {
+            reproduced = true;
         }
-        let r = bl.check(&req, &ResourceStorage::default());
-        let csp = bl.get_csp_directives(&req);
-        (r.matched, r.important, r.exception.is_some(), r.redirect, r.rewritten_url, csp)
-    };
-    let (a, o) = (run(false), run(true));
-    json!({"reproduced": a != o, "unoptimised": format!("{:?}", a), "optimised": format!("{:?}", o), "mask": m, "patterns": [p1, p2], "url": url})
+        outcomes.push(json!({"routing_bits_cleared": clear, "mask": g1.mask.bits(), "unoptimised": format!("{:?}", a), "optimised": format!("{:?}", o)}));
+    }
+    json!({"reproduced": reproduced, "outcomes": outcomes, "patterns": [p1, p2], "empty": [b(&v["force_e1"]), b(&v["force_e2"])], "url": url})
 }
 
 /// select is private: a Blocker with optimisation on must answer like one with optimisation off for the rule
@@ -586,6 +611,10 @@ fn c08_rule(_v: &Value, check: &str) -> Value {
         ("domain", "adv$domain=y.com", "https://x.com/adv", "https://z.com/", vec![]),
         ("domain", "adv$domain=~y.com", "https://x.com/adv", "https://y.com/", vec![]),
         ("domain", "adv$domain=~y.com", "https://x.com/adv", "https://z.com/", vec![]),
+        ("domain", "adv$domain=y.com|~sub.y.com", "https://x.com/adv", "https://sub.y.com/", vec![]),
+        ("domain", "adv$domain=y.com|~sub.y.com", "https://x.com/adv", "https://y.com/", vec![]),
+        ("domain", "adv$domain=y.com|~sub.y.com", "https://x.com/adv", "https://a.sub.y.com/", vec![]),
+        ("domain", "adv$domain=y.com|z.com|~sub.y.com|~w.z.com", "https://x.com/adv", "https://w.z.com/", vec![]),
         ("mask", "adv$script,third-party", "https://x.com/adv", "https://y.com/", vec![]),
         ("mask", "@@adv$script", "https://x.com/adv", "https://y.com/", vec![]),
         ("mask", "adv$important", "https://x.com/adv", "https://y.com/", vec![]),
@@ -692,6 +721,17 @@ fn c12_presplit(v: &Value) -> Value {
     let (h, hs, w, ws) = (scheme == "http", scheme == "https", scheme == "ws", scheme == "wss");
     let ok = r.is_supported == (scheme.is_empty() || h || hs || w || ws) && (r.request_type == RequestType::Websocket) == (w || ws);
     json!({"reproduced": !ok, "url": url, "scheme": scheme, "is_supported": r.is_supported, "request_type": format!("{:?}", r.request_type)})
+}
+fn c12_presplit_long(v: &Value) -> Value {
+    let (p, l) = (u(&v["p"]) as usize, (u(&v["l"]) as usize).min(12));
+    let mut url: Vec<u8> = vec![b'g'; l];
+    if p < l {
+        url[p] = b':';
+    }
+    let url = String::from_utf8(url).unwrap();
+    let r = Request::preparsed(&url, "", "", "image", false);
+    let want = p >= l || p == 0;
+    json!({"reproduced": r.is_supported != want, "url": url, "is_supported": r.is_supported, "want": want})
 }
 fn c12_types(v: &Value) -> Value {
     const T: [(&str, &str); 25] = [
